@@ -673,16 +673,12 @@ class Plucker(SMUserList):
         """
         l1 = self
         if l1 | l2:
-            # lines are parallel
-            l = np.cross(l1.w, l1.v - l2.v * np.dot(l1.w, l2.w) / dot(l2.w, l2.w)) / np.linalg.norm(l1.w)
+            # lines are parallel: the principal points are both normal to the common direction
+            l = np.linalg.norm(np.cross(l1.uw, l1.pp - l2.pp))
         else:
-            # lines are not parallel
-            if abs(l1 * l2) < 10*_eps:
-                # lines intersect at a point
-                l = 0
-            else:
-                # lines don't intersect, find closest distance
-                l = abs(l1 * l2) / np.linalg.norm(np.cross(l1.w, l2.w))**2
+            # lines are not parallel: project the offset onto the common normal
+            n = np.cross(l1.uw, l2.uw)
+            l = abs(np.dot(l1.pp - l2.pp, n)) / np.linalg.norm(n)
         return l
 
     
